@@ -226,7 +226,8 @@ def handleLine (st : State) (line : String) : State × String :=
       let bad := inClass && o1 != o2
       let unstable := (urlAttrVals o1).any fun v => (Url.parse v).map Url.print != some v
       -- the two passes agree except for the position of rel / target among the attributes of a tag
-      let reordered := sameUpToForcedAttrOrder (tokenize o1) (tokenize o2)
+      -- (and do differ there: two outputs that read as the same tokens are not this finding)
+      let reordered := (tokenize o1 != tokenize o2) && sameUpToForcedAttrOrder (tokenize o1) (tokenize o2)
       (st, verdict (m1 == o1 && m2 == o2) (hexField m1 ++ "/" ++ hexField m2)
         (if bad then ["C20"] else [])
         (if bad && unstable then ["C20:url-reprint-unstable"]
